@@ -62,6 +62,7 @@ class Harness:
         self.cont_tag = {}
         self.defs = {(d["ent"], d["kind"]): d for d in prog["defs"]}
         self.futs = {}
+        self.EMPTY = []
         H = self
 
         class ScriptEntity(Entity):
@@ -94,9 +95,12 @@ class Harness:
                 for seg in d["segs"]:
                     pending = H.run_acts(self, seg["acts"])
                     if d.get("reuse_list"):
-                        outbox.clear()
-                        outbox.extend(pending)
-                        pending = outbox
+                        if pending:
+                            outbox.clear()
+                            outbox.extend(pending)
+                            pending = outbox
+                        else:
+                            pending = H.EMPTY   # a shared "no side effects" constant the model never touches
                     term = seg["term"]
                     if term[0] == "Y":
                         now = self.now.nanoseconds
